@@ -137,7 +137,7 @@ def main():
         if args.tier == 'thorough' and getattr(mod, 'AUTO_SHARD', True):
             # Hypothesis is single-core: split every generated campaign
             # that the module did not shard itself over the cores (each
-            # shard has its own seed; together they run twice the cases)
+            # shard has its own seed; together they run four times the cases)
             plain = [c for c in cfgs if c.get('mode', 'hyp') == 'hyp' and
                      'shard' not in c and 'n' in c]
             k = max(1, min(8, args.jobs // max(1, len(cfgs))))
@@ -151,7 +151,7 @@ def main():
                         d = dict(c)
                         d['shard'] = sh
                         d['name'] = '%s-s%d' % (c.get('name', 'cfg'), sh)
-                        d['n'] = max(1, 2 * int(c['n']) // k)
+                        d['n'] = max(1, 4 * int(c['n']) // k)
                         out_.append(d)
                 cfgs = out_
         if args.tier == 'thorough' and getattr(mod, 'ATHERIS', None) and \
